@@ -567,7 +567,12 @@ pub fn run_impl(world: &mut RWorld, cfg: Cfg, ts: &TreeSpec, rng: &mut Rng, n_op
         let op = match &fixed_ops {
             Some(v) => v[i].clone(),
             None => {
-                if ts.stale_handles() && !handle_open && rng.chance(1, 7) {
+                if handle_open && i + 1 == total {
+                    // the history always ends with the drop of a still-open handle, so that its
+                    // effect (and a panic in it) is observed
+                    handle_open = false;
+                    Op { name: "hdrop", path: String::new(), bytes: None, dest: None, time: None }
+                } else if ts.stale_handles() && !handle_open && rng.chance(1, 7) {
                     // mostly on paths that can get children, so that the path can change type
                     // and gain entries while the handle is open
                     let p = if rng.chance(2, 3) { rng.pick(&["/a", "/c", "/a/a"][..]).to_string() } else { rng.pick(&UNIVERSE[1..]).to_string() };
